@@ -9,6 +9,7 @@ the whole recorded history.  See DESIGN §3.
 from __future__ import annotations
 
 import json
+import os
 import random
 import sys
 import time
@@ -65,6 +66,8 @@ def build_pool(rng: random.Random, cfg: dict) -> list:
     # equation and reloads) - the bait for anything cached across models.
     base = [p for p in pool if not p["large"]]
     n_sib = cfg.get("n_sibling", max(2, len(base) // 3))
+    if os.environ.get("VERIF_C09_NO_SIBLINGS"):  # ablation switch for the sensitivity notes only
+        n_sib = 0
     for i in range(n_sib):
         b = base[(i * 3) % len(base)]
         t2 = modelgen.edit_formulas(rng, b["text"], rng.randrange(1, 4))
@@ -145,6 +148,10 @@ def decorate_pool(rng: random.Random, pool: list, cfg: dict) -> None:
         p["held_alias"] = rng.choice(["forward_euler", "euler", "explicit_euler", "forward_explicit_euler"])
         p["public_fn"] = rng.choice(["explicit_euler", "explicit_euler", "generalized_rush_larsen"]) if not p["large"] else "explicit_euler"
         p["comp_ci"] = rng.randrange(0, 4)
+        cli = rng.choice([["ode2py", "-f", "none"], ["ode2py", "-f", "none", "--scheme", "explicit_euler", "--remove-unused"],
+                          ["ode2c", "-f", "none", "--to", ".c"], ["ode2c", "-f", "none", "--remove-unused", "--scheme", "explicit_euler"],
+                          ["ode2py", "-f", "none", "-b", "jax"]])
+        p["cli_args"] = cli
 
 
 def merge_preserving(rng: random.Random, seqs: list) -> list:
@@ -190,7 +197,7 @@ def build_life(rng: random.Random, k: int, pool: list, cfg: dict, phase: int, ar
     enabled = [x for x in sorted(set(PERT_KINDS)) if rng.random() < 0.6] or ["GET_SCHEME"]
     use = {n: rng.random() < p for n, p in
            [("piece", 0.5), ("held", 0.5), ("public", 0.5), ("derive", 0.45), ("layout", 0.8),
-            ("repeat", 0.4), ("array", 0.5)]}
+            ("repeat", 0.4), ("array", 0.5), ("cli", 0.3)]}
     p_pert = rng.choice([0.0, 0.15, 0.3, 0.5])
     lo, hi = cfg["per_life"]
     candidates = [p for p in pool if not p["large"]]
@@ -237,6 +244,8 @@ def build_life(rng: random.Random, k: int, pool: list, cfg: dict, phase: int, ar
             if len(m["optsets"]) > 1 and rng.random() < 0.5:
                 body.append({"op": "GEN", "h": h2, "opts": m["optsets"][1]})
             body.append({"op": "LAYOUT", "h": h2})
+        if use["cli"] and not m["large"]:
+            body.append({"op": "CLI_GEN", "m": m["id"], "args": m["cli_args"]})
         if use["array"] and not m["large"]:
             if phase == 0 and rng.random() < 0.5:
                 fid = "arr_%s_%d" % (m["sha"], k)
